@@ -287,7 +287,7 @@ def oracle(ctx):
     ctx.cov['context_histogram'] = hist
     ctx.counters['nontrivial'] = len(nt)
     ctx.sample({'template': cases[0][0]['src'], 'expected': cases[0][1]})
-    # named and numeric character references inside an expression are decoded before it is evaluated (D-06b, fixed: &xi; was not)
+    # named and numeric character references inside an expression are decoded before it is evaluated (D-06c, fixed: &xi; was not)
     ENT = [("'&xi;'", '\u03be'), ("'&Xi;'", '\u039e'), ("'&pi;'", '\u03c0'), ("'&#x41;'", 'A'), ("'&#65;'", 'A'), ("'&#x4A;'", 'J'), ("'&eacute;'", '\u00e9'),
            ("'&x41;'", '&amp;x41;'), ("'&xyz;'", '&amp;xyz;'), ("'&nosuch;'", '&amp;nosuch;'), ("len('&lt;&gt;&amp;')", '3')]
     for e, want in ENT:
